@@ -21,6 +21,10 @@ logging.getLogger("pymoca").addHandler(logging.NullHandler())
 # rendering of ClassTreeFlatten library shapes
 def _mod_txt(m):
     path = ".".join(m["path"])
+    if m["attr"] == "redeclare":
+        if len(m["path"]) != 1:
+            raise MachineryError("redeclare below the first level is not rendered: %r" % (m,))
+        return "redeclare model %s = %s" % (path, m["val"])
     if m["attr"] == "value":
         return "%s = %s" % (path, m["val"])
     return "%s(%s = %s)" % (path, m["attr"], m["val"])
@@ -54,6 +58,8 @@ def render_flatten_lib(lib):
         out.append("%s %s" % (c["kind"], c["name"]))
         for a in c["alias"]:
             out.append("  type %s = Real(%s = %s);" % (a["name"], a["attr"], a["val"]))
+        for r in c.get("repl", []):
+            out.append("  replaceable model %s = %s;" % (r["name"], r["def"]))
         for e in c["ext"]:
             s = "  extends %s" % e["base"]
             if e["mods"]:
@@ -61,9 +67,14 @@ def render_flatten_lib(lib):
             out.append(s + ";")
         for comp in c["comps"]:
             out.append("  " + _comp_txt(comp, alias_names))
-        if c["eqs"]:
+        eqs = list(c["eqs"]) + ["%s = %s.%s" % (r["var"], r["cls"], r["sym"]) for r in c.get("crefs", [])]
+        if eqs:
             out.append("equation")
-            for q in c["eqs"]:
+            for q in eqs:
+                out.append("  %s;" % q)
+        if c.get("algs"):
+            out.append("algorithm")
+            for q in c["algs"]:
                 out.append("  %s;" % q)
         out.append("end %s;" % c["name"])
         out.append("")
